@@ -848,3 +848,145 @@ func ruleTableAccounting(p *Prog, r *Out) {
 		r.check(st["hp.maxTableSize"] == param && st["hp.maxTableSizeSettings"] == param && st["hp.pendingSizeUpdate"] == "true" && shr, "new table limit is stored, announced and applied", p.pos(fd.Pos()), "maxTableSize = maxTableSizeSettings = size; pendingSizeUpdate = true; shrink()", "SetMaxTableSize no longer stores the limit for both the table and the size-update check, schedules the size update and evicts down to the new limit")
 	}
 }
+
+// ---------------------------------------------------------------- text primitives
+
+func init() {
+	register(&Rule{
+		Name: "text-primitives", Props: []string{"C20", "C01", "C02"}, Engine: "FDE", Floor: 8,
+		Doc: "the octet-level helpers of message validation agree with their definitions on every octet: hasUpperCase flags exactly 'A'..'Z'; parseUint rejects empty input and exactly the non-digits, accumulates n*10+digit, and refuses a digit that would overflow; statusBytes passes exactly 100..999 through and the table holds the decimal form of each",
+		Run: ruleTextPrimitives,
+	})
+}
+
+func ruleTextPrimitives(p *Prog, r *Out) {
+	octets := fdeDomain{[]string{"c"}, [][]int64{seq(0, 255)}}
+	if fd := p.decl("hasUpperCase"); fd != nil {
+		r.fn("hasUpperCase")
+		c := fdeCheck{p, r, p.pos(fd.Pos())}
+		var cond ast.Expr
+		retTrue := false
+		ast.Inspect(fd.Body, func(n ast.Node) bool {
+			if ifs, ok := n.(*ast.IfStmt); ok && cond == nil {
+				cond = ifs.Cond
+				if res := firstReturn(ifs.Body); len(res) == 1 && p.text(res[0]) == "true" {
+					retTrue = true
+				}
+			}
+			return true
+		})
+		c.expr("upper-case test", cond, octets, nil, func(e fdeEnv) int64 { return b2i(e["c"] >= 'A' && e["c"] <= 'Z') }, "'A' <= c <= 'Z'", "header field names with an upper-case letter are malformed (RFC 7540 s8.1.2); any other range refuses legal names or lets 'A' or 'Z' through")
+		last := retResults(fd.Body.List[len(fd.Body.List)-1])
+		r.check(retTrue && len(last) == 1 && p.text(last[0]) == "false", "upper-case verdicts", c.pos, "true on a hit, false at the end", "hasUpperCase's verdicts are inverted or constant")
+	} else {
+		r.undecided("hasUpperCase", "?", "no longer resolves")
+	}
+	if fd := p.decl("parseUint"); fd != nil {
+		r.fn("parseUint")
+		c := fdeCheck{p, r, p.pos(fd.Pos())}
+		bName := fd.Type.Params.List[0].Names[0].Name
+		blen := "len(" + bName + ")"
+		if ifs, ok := fd.Body.List[0].(*ast.IfStmt); ok {
+			c.expr("parseUint empty-input test", ifs.Cond, fdeDomain{[]string{blen}, [][]int64{seq(0, 3)}}, nil, func(e fdeEnv) int64 { return b2i(e[blen] == 0) }, "len(b) == 0", "an empty content-length is not a number")
+			r.check(isRejectingBody(p, ifs.Body), "parseUint rejects empty input", p.pos(ifs.Pos()), "return 0, errInvalidUint", "empty input is no longer an error")
+		} else {
+			r.bad("parseUint empty-input test", c.pos, "parseUint no longer starts with an emptiness test")
+		}
+		var loop *ast.RangeStmt
+		ast.Inspect(fd.Body, func(n ast.Node) bool {
+			if rs, ok := n.(*ast.RangeStmt); ok && loop == nil {
+				loop = rs
+			}
+			return true
+		})
+		if loop == nil || loop.Value == nil || p.text(loop.X) != bName {
+			r.bad("parseUint digit loop", c.pos, "parseUint no longer ranges over every octet of its input")
+		} else {
+			cv := p.text(loop.Value)
+			dom := fdeDomain{[]string{cv}, [][]int64{seq(0, 255)}}
+			var digitIf, ovfIf *ast.IfStmt
+			var acc *ast.AssignStmt
+			for _, s := range loop.Body.List {
+				switch x := s.(type) {
+				case *ast.IfStmt:
+					if !mentionsIdent(x.Cond, "n") && digitIf == nil {
+						digitIf = x
+					} else if mentionsIdent(x.Cond, "n") {
+						ovfIf = x
+					}
+				case *ast.AssignStmt:
+					if p.text(x.Lhs[0]) == "n" {
+						acc = x
+					}
+				}
+			}
+			if digitIf != nil {
+				c.expr("parseUint digit test", digitIf.Cond, dom, nil, func(e fdeEnv) int64 { return b2i(e[cv] < '0' || e[cv] > '9') }, "c < '0' || c > '9'", "a content-length is 1*DIGIT; any other test lets a non-digit be read as a digit or refuses one")
+				r.check(isRejectingBody(p, digitIf.Body), "parseUint rejects non-digits", p.pos(digitIf.Pos()), "return 0, errInvalidUint", "a non-digit is no longer an error")
+			} else {
+				r.bad("parseUint digit test", c.pos, "no digit test in the loop")
+			}
+			if acc != nil {
+				c.expr("parseUint accumulation", acc.Rhs[0], fdeDomain{[]string{"n", cv}, [][]int64{{0, 1, 12, 99999}, seq('0', '9')}}, nil, func(e fdeEnv) int64 { return e["n"]*10 + e[cv] - '0' }, "n*10 + digit", "the value is the base-10 reading of the digits")
+			} else {
+				r.bad("parseUint accumulation", c.pos, "no accumulation statement in the loop")
+			}
+			if ovfIf != nil {
+				const M = int64(^uint64(0) >> 1)
+				c.expr("parseUint overflow test", ovfIf.Cond, fdeDomain{[]string{"n", cv}, [][]int64{{0, 1, M/10 - 1, M / 10, M/10 + 1, M}, seq('0', '9')}}, nil, func(e fdeEnv) int64 {
+					d := e[cv] - '0'
+					// n*10 + d > M without overflowing: n > (M-d)/10
+					return b2i(e["n"] > (M-d)/10)
+				}, "n*10+digit > maxInt", "a content-length that does not fit wraps to a small number that passes every later check")
+				r.check(isRejectingBody(p, ovfIf.Body), "parseUint rejects overflow", p.pos(ovfIf.Pos()), "return 0, errInvalidUint", "an overflowing number is no longer an error")
+				order := acc != nil && ovfIf.Pos() < acc.Pos() && digitIf != nil && digitIf.Pos() < ovfIf.Pos()
+				r.check(order, "parseUint tests before it accumulates", p.pos(loop.Pos()), "digit test, overflow test, then n = n*10+d", "the digit and overflow tests no longer precede the accumulation they protect")
+			} else {
+				r.bad("parseUint overflow test", c.pos, "no overflow test in the loop")
+			}
+		}
+		if v, ok := p.pkgConst("maxInt"); ok {
+			r.check(v == int64(^uint64(0)>>1), "maxInt is the largest int", c.pos, "2^63-1", "maxInt is no longer the largest value of int: the overflow test compares against the wrong bound")
+		}
+	} else {
+		r.undecided("parseUint", "?", "no longer resolves")
+	}
+	if fd := p.decl("statusBytes"); fd != nil {
+		r.fn("statusBytes")
+		c := fdeCheck{p, r, p.pos(fd.Pos())}
+		if ifs, ok := fd.Body.List[0].(*ast.IfStmt); ok {
+			c.expr("status range test", ifs.Cond, fdeDomain{[]string{"code"}, [][]int64{{-1, 0, 99, 100, 101, 200, 998, 999, 1000, 5000}}}, nil, func(e fdeEnv) int64 { return b2i(e["code"] < 100 || e["code"] > 999) }, "code < 100 || code > 999", "every three-digit status the handler sets must reach the peer unchanged, and nothing else may index the table")
+		} else {
+			r.bad("status range test", c.pos, "statusBytes no longer starts with its range test")
+		}
+		last := retResults(fd.Body.List[len(fd.Body.List)-1])
+		r.check(len(last) == 1 && squash(p.text(last[0])) == "statusCodes[code]", "status text comes from the table entry of that code", c.pos, "return statusCodes[code]", "statusBytes no longer returns the table entry of the code it was given")
+	}
+	// the table: codes[i] = Itoa(i) for i in 100..999
+	if init, id := p.findVarInit("statusCodes"); init != nil {
+		okLoop, okFill := false, false
+		ast.Inspect(init, func(n ast.Node) bool {
+			fs, ok := n.(*ast.ForStmt)
+			if !ok {
+				return true
+			}
+			as, ok1 := fs.Init.(*ast.AssignStmt)
+			inc, ok2 := fs.Post.(*ast.IncDecStmt)
+			if ok1 && ok2 && inc.Tok == token.INC {
+				lo, okl := p.intConst(as.Rhs[0])
+				if cmp, okc := p.canonCmp(fs.Cond, nil); okc && okl && lo == 100 && cmp.Op == "le" && cmp.L.eq(Lin{T: map[string]int64{"i": 1}, C: -999}) {
+					okLoop = true
+				}
+			}
+			for _, s := range fs.Body.List {
+				if a, ok := s.(*ast.AssignStmt); ok && squash(p.text(a.Lhs[0])) == "codes[i]" && squash(p.text(a.Rhs[0])) == "[]byte(strconv.Itoa(i))" {
+					okFill = true
+				}
+			}
+			return true
+		})
+		r.check(okLoop && okFill, "status table holds the decimal form of 100..999", p.pos(id.Pos()), "for i := 100; i < 1000; i++ { codes[i] = Itoa(i) }", "the status table no longer holds, for every code from 100 to 999, that code's decimal form: a status is sent as another status or as an empty :status")
+	} else {
+		r.undecided("statusCodes", "?", "the status table no longer resolves")
+	}
+}
